@@ -11,10 +11,10 @@ CONSTANTS
   Kinds <- AllKinds
   OnlyCare <- EnvOnlyCare
   Validate <- EnvValidate
-  MaxForeign = 1
+  MaxForeign = 0
   MaxDeliver = 1
   FailPoints = {0}
   AllowEarly = FALSE
-  AllowPkUpd = FALSE
-INVARIANTS Dump
+  AllowPkUpd = TRUE
+INVARIANTS DumpShapes
 CHECK_DEADLOCK FALSE
